@@ -252,7 +252,13 @@ def execute(spec, world):
         return res
     with world.step(0, 0, use_fs=False):
         try:
-            obj = gen.build(base)
+            _kept = []
+            obj = gen.build(base, keep=_kept)
+            # hostile caller: the arrays handed to the constructor are the caller's, and the
+            # caller overwrites them right away (the shape must own copies)
+            for _a in _kept:
+                if _a.dtype.kind == "f":
+                    _a += 1.2345 * (1.0 + np.abs(_a))
         except Exception as e:  # noqa: BLE001
             C["base_unbuildable"] += 1
             log.add("base", "unbuildable", type(e).__name__)
@@ -405,7 +411,7 @@ def execute(spec, world):
 
         if kind == "bad":
             C["fault.invalid_target." + arg["bad"]] += 1
-        valid = kind in ("factor", "abs_zero")
+        valid = kind in ("factor", "abs_zero", "restore")
         if kind == "bad" and arg["bad"] == "zero" and prop == "radius" and \
                 tcls.startswith("ConvexSphero"):
             valid = True  # rounding radius 0 is a legal assignment
